@@ -7,13 +7,13 @@ HEADER = "From Verif Require Import RawPkhCasesDefs.\nLocal Open Scope N_scope.\
 
 
 def _pairs(text, tag):
-    m = re.search(r'\("%s",\s*\[(.*?)\]\)' % tag, text, flags=re.S)
+    m = re.search(r'\("%s"(?:%%string)?,\s*\[(.*?)\]\)' % tag, text, flags=re.S)
     if not m:
         return None
     body = m.group(1)
     if tag == "script":
         return [int(x) for x in re.findall(r"\d+", body)]
-    return [(int(a), int(b)) for a, b in re.findall(r"\((\d+),\s*(\d+)\)", body)]
+    return [(int(a), int(b)) for a, b in re.findall(r"\(\s*(\d+),\s*(\d+)\)", body)]
 
 
 def _case_text(gen, idx):
@@ -36,6 +36,9 @@ def run(rep, seed):
     cov.update({"scripts": scripts, "runs": runs, "witnesses_returned": sat_ok, "no_witness": sat_err,
                 "panics": panics, "histogram": m.group(6),
                 "skipped_templates": len(re.findall(r"\(\* SKIP", out))})
+    o = re.search(r"\(\* OBS (.*?) \*\)", out)
+    if o:
+        cov["observation_raw_sig_lookup_only"] = o.group(1)
     tdir = os.path.join(vlib.COQ, "Tables")
     open(os.path.join(tdir, "RawPkhCasesGen.v"), "w").write(HEADER + out)
     if panics:
@@ -61,10 +64,13 @@ def run(rep, seed):
     # on-break: locate the cases; a rejected witness of the implementation is a failing input of the property
     c3 = vlib.coqc("Tables/RawPkhCasesDiag.v")
     text = c3.stdout
-    spend = _pairs(text, "spend") or []
-    tpl = _pairs(text, "template") or []
-    wit = _pairs(text, "witness") or []
-    scr = _pairs(text, "script") or []
+    # Tap cases come after the others in the generated file: shift their script indices
+    off = len(re.findall(r"  mkRCase C(?:Segwit|Legacy) ", out))
+    sh = lambda l: [(a + off, b) for a, b in (l or [])]
+    spend = (_pairs(text, "spend") or []) + sh(_pairs(text, "xspend"))
+    tpl = (_pairs(text, "template") or []) + sh(_pairs(text, "xtemplate"))
+    wit = (_pairs(text, "witness") or []) + sh(_pairs(text, "xwitness"))
+    scr = (_pairs(text, "script") or []) + [a + off for a in (_pairs(text, "xscript") or [])]
     for (ci, ri) in spend[:1]:
         rep.violation("rawpkh:spend", "witness returned for a decoded script with a raw key hash is rejected by the Script semantics (script %d, run %d; %d such runs)" % (ci, ri, len(spend)),
                       {"property": "C01", "engine": "rawpkh", "seed": seed, "script_index": ci, "run_index": ri,
